@@ -44,8 +44,12 @@ def extract(repo):
              "pollfd growth rule")
     out += coq_def_N("net_fds_initial", int(m.group(1)))
     out += coq_def_N("net_fds_factor", int(m.group(2)))
-    m = _one(r"tv->tv_sec\s*>=\s*INT_MAX\s*/\s*(\d+)\s*\)\s*timeout\s*=\s*INT_MAX\s*;", net, "timeout clamp")
+    # else if (tv->tv_sec >= INT_MAX / 1000) timeout = INT_MAX / 1000 * 1000;
+    m = _one(r"tv->tv_sec\s*>=\s*INT_MAX\s*/\s*(\d+)\s*\)\s*timeout\s*=\s*INT_MAX\s*/\s*(\d+)\s*\*\s*(\d+)\s*;", net,
+             "timeout clamp (tv_sec >= INT_MAX / a -> INT_MAX / b * c)")
     out += coq_def_N("sel_clamp_div", int(m.group(1)))
+    out += coq_def_N("sel_clamp_val_div", int(m.group(2)))
+    out += coq_def_N("sel_clamp_val_mul", int(m.group(3)))
     m = _one(r"timeout\s*=\s*\(int\)\s*\(\s*tv->tv_sec\s*\*\s*(\d+)\s*\+\s*\(\s*tv->tv_usec\s*\+\s*(\d+)\s*\)\s*/\s*(\d+)\s*\)\s*;",
              net, "timeout conversion")
     out += coq_def_N("sel_ms_per_sec", int(m.group(1)))
